@@ -141,3 +141,6 @@ func init() {
 		return nil, "index/" + profile
 	}, nil)
 }
+
+// Register lets monitors add workload generators of their own.
+func Register(name string, f Func) { register(name, f, nil) }
